@@ -119,7 +119,12 @@ def r2(ctx):
     hb = f.one(HANDLER + "::handle_request")
     for variant, resp, p in responses(ctx):
         hdr = field_of(resp, "0", "header")
-        got = tuple(simplify_trunc(field_of(hdr, n)) for n in ("body_length", "key_length", "extras_length"))
+        def key_len(x):
+            # the length of a request key: at most 250 (validated by the decoder, C10.R3) — fits every integer type used
+            t = tform(x)
+            return isinstance(t, tuple) and t and ((t[0] == "len" and isinstance(t[1], tuple) and t[1][0] == "field" and t[1][2] == "key") or (t[0] == "call" and t[1].endswith("::len") and t[3] and isinstance(t[3][0], tuple) and t[3][0][0] == "field" and t[3][0][2] == "key"))
+
+        got = tuple(simplify_trunc(field_of(hdr, n), 32, key_len) for n in ("body_length", "key_length", "extras_length"))
         want = expected_payload(resp.variant, resp)
         ok = all(tform(g) == tform(w) for g, w in zip(got, want))
         rep.check(ok, "%s->%s:lengths" % (variant, resp.variant), "body/key/extras = %s" % (tuple(short(w, 40) for w in want),), "response to %s (%s) announces body/key/extras lengths %s but the encoder writes %s: the client cannot find the next response" % (variant, resp.variant, tuple(short(g, 60) for g in got), tuple(short(w, 60) for w in want)), hb.loc())
@@ -148,8 +153,15 @@ def r2(ctx):
                     srcs = [("flags" if F(P("r"), "flags") in atoms(val) else "key" if F(P("r"), "key") in atoms(val) else "value" if F(P("r"), "value") in atoms(val) else "?") for _w, val in puts]
                     ok = srcs in (["flags", "key", "value"], ["flags", "value"]) and puts[0][0] == 4
                     if srcs == ["flags", "value"]:
-                        # the key may be skipped only under an explicit emptiness test of it
-                        ok = ok and any("is_empty" in repr(c) and F(P("r"), "key") in atoms(c) for c, _t, _s, _at in pth.state.pc)
+                        # the key may be skipped only when it IS empty: an emptiness test of the key that came out true
+                        tests = set(x for c, _t, _s, _at in pth.state.pc for x in [c] + list(atoms(c)) if isinstance(x, tuple) and x and x[0] == "call" and x[1].endswith("is_empty") and F(P("r"), "key") in atoms(x))
+                        lens = [c for c, _t, _s, _at in pth.state.pc if isinstance(c, tuple) and c and c[0] == "cmp" and any(isinstance(x, tuple) and x and (x[0] == "len" or (x[0] == "call" and x[1].split("::")[-1] in ("len", "remaining"))) and F(P("r"), "key") in atoms(x) for x in (c[2], c[3])) and 0 in (c[2], c[3])]
+                        empty = any(bool_fact(pth, x) is True for x in tests)
+                        for c in lens:
+                            tr = [t_ for c_, t_, _s, _at in pth.state.pc if c_ == c][0]
+                            if (c[1] == "Eq" and tr) or (c[1] == "Ne" and not tr):
+                                empty = True
+                        ok = ok and empty
                 elif kind in ("Increment", "Decrement"):
                     ok = len(puts) == 1 and puts[0][0] == 8 and puts[0][1] == F(P("r"), "value")
                 elif kind == "Version":
